@@ -10,7 +10,7 @@ from evh import codec as C
 OPS = b"@ABCDEFGHIJKLMNOPQRST"
 
 
-class Hang(Exception):
+class Hang(BaseException):
     pass
 
 
@@ -22,7 +22,7 @@ def impl_loads(data, sc=(False, False)):
     import execnet
 
     signal.signal(signal.SIGALRM, _alarm)
-    signal.setitimer(signal.ITIMER_REAL, 5.0)
+    signal.setitimer(signal.ITIMER_REAL, 3.0)
     try:
         with C.pylimit():
             v = execnet.loads(data, py2str_as_py3str=sc[0], py3str_as_py2str=sc[1])
@@ -133,7 +133,7 @@ def main(tier, seed, replay=None):
             mo = Model().run([[1, 1, 0, int(sc[0]), int(sc[1]), 0, len(b)] + list(b) for b, _, sc in inputs], timeout=1200)
         except Exception as e:  # noqa
             ck.broke("correspondence", "modelrun-loads", repr(e))
-    ndis = 0
+    ndis = nhang = 0
     for idx, (b, kind, sc) in enumerate(inputs):
         ck.case(("l", b, sc), nontrivial=len(b) > 1)
         m = None
@@ -155,6 +155,9 @@ def main(tier, seed, replay=None):
         # the property itself
         if got[0] == "HANG":
             ck.fail("loads-does-not-terminate", ex)
+            nhang += 1
+            if nhang >= 3:
+                break
         elif got[0] == "EXC" and got[1] not in ("LoadError", "EOFError"):
             ck.fail("loads-raises-" + got[1], ex)
         elif got[0] == "OK":
